@@ -90,7 +90,16 @@ func (d domAdapter) NewGenesisPendingHeader(ph *types.WorkObject, t common.Hash,
 	return d.Core.NewGenesisPendigHeader(ph, t, h)
 }
 
+// LocDB attaches a node location to a database that has none (memorydb).
+type LocDB struct {
+	ethdb.Database
+	Loc common.Location
+}
+
+func (d LocDB) Location() common.Location { return d.Loc }
+
 var locs = [3]common.Location{PrimeLoc, RegionLoc, ZoneLoc}
+var Locs = locs
 
 // SetFastParams compresses protocol time scales; call before New. Callers may override afterwards.
 func SetFastParams() {
@@ -109,7 +118,9 @@ func (n *Net) openDB(ctx int) (ethdb.Database, error) {
 	var db ethdb.Database
 	switch backend {
 	case "memory":
-		db = rawdb.NewMemoryDatabase(log.Global)
+		// memorydb.Location() returns nil, which makes rawdb decode stored blocks with the prime
+		// context (all addresses external); real engines carry the node location, so give it one
+		db = LocDB{rawdb.NewMemoryDatabase(log.Global), locs[ctx]}
 	case "leveldb":
 		d, err := leveldb.New(filepath.Join(o.Dir, fmt.Sprintf("ldb-%d", ctx)), 16, 16, "", false, log.Global, locs[ctx])
 		if err != nil {
@@ -353,7 +364,9 @@ func (n *Net) Insert(m *Mined) error {
 		return err
 	}
 	if n.Cores[Zone].GetHeaderByHash(m.Hash) == nil {
-		return errors.New("block was not appended")
+		// InsertChain swallows the reason; ask Append directly for it
+		_, aerr := n.Cores[m.Order].Slice().Append(m.Blocks[m.Order], common.Hash{}, false, nil)
+		return fmt.Errorf("block was not appended: %v", aerr)
 	}
 	return nil
 }
